@@ -125,14 +125,16 @@ CHECKS = {
         category="model_checking",
         technique="TLA+ Compose spec (Splits, module-level expectations, option correspondence; LawSplit asserted by "
                   "TLC) + replay of splits into wrap / wrap_submodule / MatlabWrapper.wrap and of option sets into both "
-                  "scripts",
+                  "scripts; (executed) split 'call' profile modules compiled, linked into one extension module, imported and driven "
+                  "through the PyCall plan of the whole module",
         text="TLC distributes the top-level declarations of each derived module over 2-4 files (every single cut, "
              "first+last, all cuts) and emits the expected initialiser declarations / invocations / definitions; the "
              "harness writes the parts with varying final characters (no newline, trailing // or /* */ comment) and "
              "checks main and additional units, MATLAB list-vs-single-file equality, and script-vs-API byte equality "
              "for --top_module_namespaces / --ignore (absent, empty, one) / --is_submodule / --use-boost-serialization.",
-        note="Linking and importing the combined module is not part of the quick tier.",
-        design="6/C16"),
+        note="Executed half: main + one additional file, cut at up to three declaration boundaries per module; the linked module "
+             "must expose and forward exactly as the single-file module does.",
+        design="6/C16, 12.8"),
     "C17": dict(
         category="model_checking",
         technique="TLA+ DocString spec: lookup machine with overload counter + Embed/Decode of the C++ literal, "
